@@ -98,116 +98,57 @@ Lemma spec_tris_char : forall ok b,
   else None.
 Proof. intros. apply (spec_tris_char_aux ok (length b)). lia. Qed.
 
-Lemma refs_beyond_le : forall nv ts,
-  existsb (refs_beyond nv) ts = negb (forallb (tri_all (fun i => i <=? nv)) ts).
+Lemma refs_beyond_lt : forall nv ts,
+  existsb (refs_beyond nv) ts = negb (forallb (tri_all (fun i => i <? nv)) ts).
 Proof.
   intros nv ts. induction ts as [|[[a b] c] ts IH]; [reflexivity|].
   cbn [existsb forallb refs_beyond tri_all]. rewrite IH.
-  destruct (N.ltb_spec nv a), (N.ltb_spec nv b), (N.ltb_spec nv c),
-           (N.leb_spec a nv), (N.leb_spec b nv), (N.leb_spec c nv); cbn; try reflexivity; lia.
+  destruct (N.leb_spec nv a), (N.leb_spec nv b), (N.leb_spec nv c),
+           (N.ltb_spec a nv), (N.ltb_spec b nv), (N.ltb_spec c nv); cbn; try reflexivity; lia.
 Qed.
 
-Lemma strict_is_lenient_without_eq : forall nv ts,
-  forallb (tri_all (fun i => i <? nv)) ts =
-  forallb (tri_all (fun i => i <=? nv)) ts && negb (existsb (tri_has nv) ts).
-Proof.
-  intros nv ts. induction ts as [|[[a b] c] ts IH]; [reflexivity|].
-  cbn [existsb forallb tri_has tri_all]. rewrite IH.
-  destruct (N.ltb_spec a nv), (N.ltb_spec b nv), (N.ltb_spec c nv),
-           (N.leb_spec a nv), (N.leb_spec b nv), (N.leb_spec c nv),
-           (N.eqb_spec a nv), (N.eqb_spec b nv), (N.eqb_spec c nv); cbn; try lia;
-  destruct (forallb (tri_all (fun i : N => i <=? nv)) ts); cbn; try reflexivity;
-  destruct (existsb (tri_has nv) ts); reflexivity.
-Qed.
-
-(* the reader, as coded, is the format reader with "<=" in place of "<" *)
+(* the reader, as coded, is the format reader *)
 Lemma read_mesh_char : forall h0 h1 h2 h3 rest,
   read_mesh (h0 :: h1 :: h2 :: h3 :: rest) =
-  match spec_parse_with (fun nv i => i <=? nv) (h0 :: h1 :: h2 :: h3 :: rest) with
+  match spec_parse (h0 :: h1 :: h2 :: h3 :: rest) with
   | Some m => Ok m | None => FormatErr end.
 Proof.
-  intros. unfold read_mesh, spec_parse_with.
+  intros. unfold read_mesh, spec_parse, spec_parse_with.
   set (nv := unle32 h0 h1 h2 h3).
   rewrite spec_verts_char.
   destruct (lenN rest <? 12 * nv); [reflexivity|].
   rewrite spec_tris_char.
   destruct (lenN (skipn (N.to_nat (12 * nv)) rest) mod 12 =? 0); [|reflexivity].
-  cbn [negb]. rewrite refs_beyond_le.
-  destruct (forallb (tri_all (fun i => i <=? nv)) (dec_triples (skipn (N.to_nat (12 * nv)) rest)));
+  cbn [negb]. rewrite refs_beyond_lt.
+  destruct (forallb (tri_all (fun i => i <? nv)) (dec_triples (skipn (N.to_nat (12 * nv)) rest)));
     reflexivity.
 Qed.
 
-Lemma read_mesh_short : forall b, lenN b < 4 -> read_mesh b = Crash StructError.
+(* every byte string: the mesh the format describes, or the mesh-data error *)
+Lemma reader_total_lemma : forall b, reader_conforms b.
+Proof.
+  intro b. unfold reader_conforms.
+  destruct b as [|h0 [|h1 [|h2 [|h3 rest]]]]; try reflexivity.
+  apply read_mesh_char.
+Qed.
+
+Lemma reader_never_crashes_lemma : forall b k, read_mesh b <> Crash k.
+Proof.
+  intros b k. rewrite (reader_total_lemma b). destruct (spec_parse b); discriminate.
+Qed.
+
+(* rejections the property names explicitly *)
+Lemma short_header_rejected_lemma : forall b, lenN b < 4 -> read_mesh b = FormatErr.
 Proof.
   intros b H. do 4 (destruct b as [|? b]; [reflexivity|]).
   repeat rewrite lenN_cons in H. lia.
-Qed.
-
-Lemma spec_parse_short : forall b, lenN b < 4 -> spec_parse b = None.
-Proof.
-  intros b H. do 4 (destruct b as [|? b]; [reflexivity|]).
-  repeat rewrite lenN_cons in H. lia.
-Qed.
-
-Lemma long_enough : forall b : list N, 4 <= lenN b -> exists h0 h1 h2 h3 rest, b = h0 :: h1 :: h2 :: h3 :: rest.
-Proof.
-  intros b H. do 4 (destruct b as [|? b]; [repeat rewrite lenN_cons in H; rewrite (@lenN_nil N) in H; lia|]).
-  repeat eexists.
-Qed.
-
-Lemma reader_total_on_guard_lemma : forall b, reader_guard b = true -> reader_conforms b.
-Proof.
-  intros b Hg. unfold reader_guard in Hg. apply andb_prop in Hg as [Hlen Hne].
-  apply N.leb_le in Hlen. destruct (long_enough b Hlen) as (h0 & h1 & h2 & h3 & rest & ->).
-  unfold reader_conforms. rewrite read_mesh_char.
-  unfold index_eq_count in Hne. unfold spec_parse.
-  unfold spec_parse_with in *.
-  set (nv := unle32 h0 h1 h2 h3) in *.
-  destruct (spec_verts rest nv) as [[vs r]|]; [|reflexivity].
-  rewrite ?(spec_tris_char (fun i => i <=? nv)), ?(spec_tris_char (fun i => i <? nv)) in *.
-  destruct (lenN r mod 12 =? 0); [|reflexivity].
-  rewrite strict_is_lenient_without_eq.
-  destruct (forallb (tri_all (fun i => i <=? nv)) (dec_triples r)); [|reflexivity].
-  cbn [negb] in Hne. apply negb_true_iff in Hne. rewrite Hne. reflexivity.
-Qed.
-
-(* the guard is exact: outside it the reader does NOT conform *)
-Lemma reader_guard_exact_lemma : forall b, reader_guard b = false -> ~ reader_conforms b.
-Proof.
-  intros b Hg Hc. unfold reader_guard in Hg. apply andb_false_iff in Hg as [Hlen|Heq].
-  - apply N.leb_gt in Hlen. unfold reader_conforms in Hc.
-    rewrite read_mesh_short, spec_parse_short in Hc by assumption. discriminate.
-  - apply negb_false_iff in Heq. unfold index_eq_count in Heq.
-    destruct b as [|h0 [|h1 [|h2 [|h3 rest]]]]; try discriminate.
-    unfold reader_conforms in Hc. rewrite read_mesh_char in Hc.
-    unfold spec_parse in Hc. unfold spec_parse_with in *.
-    set (nv := unle32 h0 h1 h2 h3) in *.
-    destruct (spec_verts rest nv) as [[vs r]|]; [|discriminate].
-    rewrite ?(spec_tris_char (fun i => i <=? nv)), ?(spec_tris_char (fun i => i <? nv)) in *.
-    destruct (lenN r mod 12 =? 0); [|discriminate].
-    rewrite strict_is_lenient_without_eq in Hc.
-    destruct (forallb (tri_all (fun i => i <=? nv)) (dec_triples r)); [|discriminate].
-    rewrite Heq in Hc. cbn in Hc. discriminate.
-Qed.
-
-Lemma short_header_refuted_lemma :
-  exists b, reader_guard b = false /\ read_mesh b = Crash StructError /\ ~ reader_conforms b.
-Proof.
-  exists [0; 0; 0]. split; [reflexivity|]. split; [reflexivity|].
-  apply reader_guard_exact_lemma. reflexivity.
 Qed.
 
 Definition eq_count_witness : list N :=
   [1;0;0;0; 0;0;0;0; 0;0;0;0; 0;0;0;0; 0;0;0;0; 1;0;0;0; 0;0;0;0].
 
-Lemma index_bound_refuted_lemma :
-  reader_guard eq_count_witness = false /\
-  read_mesh eq_count_witness = Ok ([(0, 0, 0)], [(0, 1, 0)]) /\
-  spec_parse eq_count_witness = None /\ ~ reader_conforms eq_count_witness.
-Proof.
-  split; [vm_compute; reflexivity|]. split; [vm_compute; reflexivity|].
-  split; [vm_compute; reflexivity|]. apply reader_guard_exact_lemma. vm_compute. reflexivity.
-Qed.
+Lemma index_bound_rejected_lemma : read_mesh eq_count_witness = FormatErr.
+Proof. vm_compute. reflexivity. Qed.
 
 (* ---------- writer then reader ---------- *)
 
@@ -275,38 +216,48 @@ Qed.
 Lemma mesh_wf_split : forall v t, mesh_wf v t = true ->
   lenN v < two32 /\ forallb (tri_all word_ok) v = true /\
   forallb (tri_all (fun i => i <? lenN v)) t = true /\
-  forallb (tri_all word_ok) t = true /\ forallb (tri_all (fun i => i <=? lenN v)) t = true.
+  forallb (tri_all word_ok) t = true.
 Proof.
   intros v t H. unfold mesh_wf in H. apply andb_prop in H as [H Ht]. apply andb_prop in H as [Hn Hv].
   apply N.ltb_lt in Hn. repeat split; try assumption.
-  - eapply forallb_impl; [|exact Ht]. intros x. apply tri_all_impl. intros i Hi.
-    apply N.ltb_lt in Hi. apply N.ltb_lt. lia.
-  - eapply forallb_impl; [|exact Ht]. intros x. apply tri_all_impl. intros i Hi.
-    apply N.ltb_lt in Hi. apply N.leb_le. lia.
-Qed.
-
-Lemma write_bytes_cons : forall v t, exists h0 h1 h2 h3 rest,
-  write_bytes v t = h0 :: h1 :: h2 :: h3 :: rest.
-Proof. intros. unfold write_bytes, le32. cbn -[N.modulo N.div N.mul N.add lenN enc_tris]. repeat eexists. Qed.
-
-Lemma mesh_roundtrip_lenient_lemma : forall v t, mesh_wf_lenient v t = true ->
-  read_mesh (write_bytes v t) = Ok (v, t).
-Proof.
-  intros v t H. unfold mesh_wf_lenient in H.
-  apply andb_prop in H as [H Hle]. apply andb_prop in H as [H Htw]. apply andb_prop in H as [Hn Hv].
-  apply N.ltb_lt in Hn.
-  destruct (write_bytes_cons v t) as (h0 & h1 & h2 & h3 & rest & E).
-  rewrite E, read_mesh_char, <- E.
-  rewrite (spec_parse_with_write (fun nv i => i <=? nv) v t Hn Hv Htw Hle). reflexivity.
+  eapply forallb_impl; [|exact Ht]. intros x. apply tri_all_impl. intros i Hi.
+  apply N.ltb_lt in Hi. apply N.ltb_lt. lia.
 Qed.
 
 Lemma mesh_roundtrip_lemma : forall v t, mesh_wf v t = true ->
   read_mesh (write_bytes v t) = Ok (v, t) /\ spec_parse (write_bytes v t) = Some (v, t).
 Proof.
-  intros v t H. destruct (mesh_wf_split v t H) as (Hn & Hv & Hlt & Htw & Hle). split.
-  - apply mesh_roundtrip_lenient_lemma. unfold mesh_wf_lenient.
-    rewrite Hv, Htw, Hle. apply N.ltb_lt in Hn. rewrite Hn. reflexivity.
-  - unfold spec_parse. apply spec_parse_with_write; assumption.
+  intros v t H. destruct (mesh_wf_split v t H) as (Hn & Hv & Hlt & Htw).
+  assert (Hs : spec_parse (write_bytes v t) = Some (v, t))
+    by (unfold spec_parse; apply spec_parse_with_write; assumption).
+  split; [|exact Hs]. rewrite (reader_total_lemma (write_bytes v t)), Hs. reflexivity.
+Qed.
+
+(* a mesh that references a vertex it does not have is refused on reading *)
+Lemma bad_index_rejected_lemma : forall v t,
+  lenN v < two32 -> forallb (tri_all word_ok) v = true -> forallb (tri_all word_ok) t = true ->
+  forallb (tri_all (fun i => i <? lenN v)) t = false ->
+  read_mesh (write_bytes v t) = FormatErr.
+Proof.
+  intros v t Hn Hv Ht Hbad.
+  rewrite (reader_total_lemma (write_bytes v t)).
+  destruct (spec_parse (write_bytes v t)) as [[v' t']|] eqn:E; [|reflexivity].
+  exfalso.
+  assert (Hlen : spec_parse_with (fun _ _ => true) (write_bytes v t) = Some (v, t)).
+  { apply spec_parse_with_write; try assumption.
+    clear. induction t as [|[[a b] c] t IH]; [reflexivity|]. cbn. exact IH. }
+  (* the strict parse, when it succeeds, returns the same mesh as the lax one *)
+  unfold spec_parse, spec_parse_with in E, Hlen.
+  unfold write_bytes, le32 in E, Hlen.
+  cbn -[N.modulo N.div N.mul N.add N.sub N.eqb lenN unle32 enc_tris spec_verts spec_tris] in E, Hlen.
+  rewrite (unle32_le32 _ Hn) in E, Hlen.
+  destruct (spec_verts (enc_tris v ++ enc_tris t) (lenN v)) as [[vs r]|]; [|discriminate].
+  rewrite spec_tris_char in E, Hlen.
+  destruct (lenN r mod 12 =? 0); [|discriminate].
+  destruct (forallb (tri_all (fun _ => true)) (dec_triples r)); [|discriminate].
+  injection Hlen as -> Hd.
+  destruct (forallb (tri_all (fun i => i <? lenN v)) (dec_triples r)) eqn:F; [|discriminate].
+  rewrite Hd in F. rewrite F in Hbad. discriminate.
 Qed.
 
 Lemma write_mesh_roundtrip_lemma : forall d v t b, write_mesh d v t = Ok b -> mesh_wf v t = true ->
@@ -711,19 +662,27 @@ Lemma vtk_demo_parses :
              vtk_grammar ls = Some (expected_mesh vtk_demo_vs vtk_demo_ts [vtk_demo_attr [99; 117; 114; 118]]).
 Proof. split; [vm_compute; reflexivity|]. eexists. split; vm_compute; reflexivity. Qed.
 
-(* attribute name "a b": passes the writer's assertion, rejected by the grammar *)
-Lemma vtk_name_whitespace_refuted_lemma :
-  vtk_guard [] vtk_version vtk_demo_vs vtk_demo_ts [vtk_demo_attr [97; 32; 98]] = false /\
-  exists ls, vtk_write [] vtk_version vtk_demo_vs vtk_demo_ts [vtk_demo_attr [97; 32; 98]] = Ok ls /\
-             vtk_grammar ls = None.
-Proof. split; [vm_compute; reflexivity|]. eexists. split; vm_compute; reflexivity. Qed.
+(* attribute names that are empty or contain white space anywhere are refused
+   by the writer *)
+Lemma vtk_bad_name_rejected_lemma : forall title version vs ts a rest,
+  existsb (N.eqb 10) title = false -> name_ok (at_name a) = false ->
+  vtk_write title version vs ts (a :: rest) = Crash AssertionError.
+Proof.
+  intros title version vs ts a rest Ht Hn. unfold vtk_write. rewrite Ht.
+  cbn [attr_lines]. change (name_assert_passes (at_name a)) with (name_ok (at_name a)).
+  rewrite Hn. reflexivity.
+Qed.
 
-(* a 170-character title: the header no longer fits the 256 bytes inspected *)
-Lemma vtk_long_title_refuted_lemma :
-  vtk_guard (repeat 120 170) vtk_version vtk_demo_vs vtk_demo_ts [] = false /\
-  exists ls, vtk_write (repeat 120 170) vtk_version vtk_demo_vs vtk_demo_ts [] = Ok ls /\
-             vtk_grammar ls = None.
-Proof. split; [vm_compute; reflexivity|]. eexists. split; vm_compute; reflexivity. Qed.
+Lemma vtk_name_whitespace_example :
+  vtk_write [] vtk_version vtk_demo_vs vtk_demo_ts [vtk_demo_attr [97; 32; 98]] = Crash AssertionError /\
+  vtk_write [] vtk_version vtk_demo_vs vtk_demo_ts [vtk_demo_attr []] = Crash AssertionError.
+Proof. split; reflexivity. Qed.
+
+(* titles of any length are written (truncated to 255 characters) and the
+   grammar, which does not model Neuroglancer's header window, accepts them *)
+Lemma vtk_long_title_example :
+  vtk_guard (repeat 120 400) vtk_version vtk_demo_vs vtk_demo_ts [] = true.
+Proof. vm_compute. reflexivity. Qed.
 
 (* a title that contains a newline is refused by the writer *)
 Lemma vtk_newline_title_lemma : forall version vs ts attrs,
@@ -893,10 +852,8 @@ Proof.
   intros nv. induction attrs as [|a attrs IH]; intro H; [reflexivity|].
   cbn [forallb] in H. apply andb_prop in H as [Ha Hr].
   unfold attr_ok in Ha. repeat (apply andb_prop in Ha as [Ha ?]).
-  cbn [attr_lines]. unfold name_ok in Ha.
-  assert (Hna : name_assert_passes (at_name a) = true).
-  { unfold name_assert_passes. destruct (at_name a) as [|c l]; [reflexivity|].
-    apply negb_true_iff in Ha. cbn [existsb] in Ha. apply orb_false_iff in Ha as [Hc _]. rewrite Hc. reflexivity. }
+  cbn [attr_lines].
+  assert (Hna : name_assert_passes (at_name a) = true) by exact Ha.
   rewrite Hna. cbn [negb].
   match goal with Hx : (at_len a =? nv) = true |- _ => rewrite Hx end.
   match goal with Hx : (_ || _) = true |- _ => rewrite Hx end. cbn [negb].
@@ -945,13 +902,10 @@ Proof.
   destruct title as [|c t]; [reflexivity|]. rewrite existsb_app, Ht. reflexivity.
 Qed.
 
-Lemma header_ok_written : forall tl, lenN tl <= 205 -> existsb is_nl tl = false ->
+Lemma header_ok_written : forall tl, existsb is_nl tl = false ->
   header_ok LMagic (LTitle tl) LAscii LDataset = true.
 Proof.
-  intros tl Hlen Hnl. unfold header_ok. cbn [header_line_len].
-  assert (Hl : (26 + 1 + (lenN tl + 1) + (5 + 1) + (16 + 1) <=? max_header_length) = true)
-    by (apply N.leb_le; unfold max_header_length; lia).
-  rewrite Hl. cbn [comment_ok]. fold is_nl. rewrite Hnl. reflexivity.
+  intros tl Hnl. unfold header_ok. cbn [comment_ok]. fold is_nl. rewrite Hnl. reflexivity.
 Qed.
 
 Lemma no_newline_title : forall title version, existsb is_nl (title ++ version) = false ->
@@ -970,10 +924,9 @@ Lemma vtk_parses_on_guard_lemma : forall title version vs ts attrs,
 Proof.
   intros title version vs ts attrs Hg. unfold vtk_guard in Hg.
   apply andb_prop in Hg as [Hg Hattrs]. apply andb_prop in Hg as [Hg Hts].
-  apply andb_prop in Hg as [Hnl Hlen]. apply negb_true_iff in Hnl. fold is_nl in Hnl.
-  apply N.leb_le in Hlen.
+  apply negb_true_iff in Hg. fold is_nl in Hg. rename Hg into Hnl.
   change (forallb tri_nonneg ts = true) in Hts.
-  pose proof (header_ok_written _ Hlen (title_line_clean _ _ Hnl)) as Hh.
+  pose proof (header_ok_written _ (title_line_clean _ _ Hnl)) as Hh.
   unfold vtk_write. rewrite (no_newline_title _ _ Hnl).
   assert (Hpts : forall rest,
     run_lines init_state (LPoints (lenN vs) :: map vert_row vs ++ LPolygons (lenN ts) (4 * lenN ts)
